@@ -268,6 +268,28 @@ def run(ctx):
         else:
             R.ok('f', 'R12', 'stake-distribution leaf template is injective as text', '', sd[0].loc())
 
+    # every entry of the distribution becomes a leaf: no element-dropping adapter between the map and the leaves handed to MKTree::new
+    # (seed C11-5: entries with a zero stake were filtered out, so the certified root no longer committed to them)
+    CMT = 'mithril_common::signable_builder::cardano_stake_distribution::CardanoStakeDistributionSignableBuilder::compute_merkle_tree_from_stake_distribution'
+    cm = ctx.try_fn('f', CMT)
+    if cm is not None:
+        DROPPING = ('call:*Iterator>::filter', 'call:*Iterator::filter', 'call:*::filter_map', 'call:*::flatten', 'call:*::flat_map', 'call:*::retain', 'call:*::take_while',
+                    'call:*::skip_while', 'call:*::take', 'call:*::skip', 'call:*::dedup*', 'call:*::truncate', 'call:*::drain', 'call:*::step_by')
+        news = [c for c in cm.body.calls() if any(glob_match('*::MKTree*::new', n) or glob_match('*::MKTree*::new_from_iter', n) for n in c.names())]
+        inst = 'compute_merkle_tree_from_stake_distribution: every (pool, stake) entry becomes a leaf'
+        bad = []
+        for c in news:
+            og = fn_origins(cm, c.args[0], True)
+            if not has(og, 'p#1'):
+                bad.append('the leaves do not derive from the distribution')
+            dr = sorted(o for o in og if any(glob_match(q, o) for q in DROPPING))
+            if dr:
+                bad.append('the leaves pass %s' % [o[5:].rsplit('::', 1)[-1] for o in dr])
+        if news and not bad:
+            R.ok('f', 'R5', inst, '', cm.loc())
+        else:
+            R.violation('f', 'R5', inst, 'stake_tree:all-entries', '; '.join(bad) or 'no MKTree::new call', cm.loc())
+
     # ---- (g)
     MB = 'mithril_client::message::MessageBuilder::'
     table = [
